@@ -69,8 +69,8 @@ func distinctJagged(w, h int) [][]int {
 }
 
 func run(c *core.Ctx) {
-	maxS := c.N(6, 6, 8)
-	fillS := c.N(6, 6, 8)
+	maxS := c.N(6, 6, 10)
+	fillS := c.N(6, 6, 10)
 	val := 1000
 	next := func() int { val++; return val }
 	for w := 0; w <= maxS; w++ {
